@@ -678,6 +678,9 @@ def witnesses():
     # K16: a class called like a typing import
     w("k16_list", "typing_name_shadow", "message List { repeated int32 xs = 1; }\nmessage B { repeated List ls = 1; }\n")
     w("k16_optional", "typing_name_shadow", "message Optional { int32 x = 1; }\nmessage C { optional int32 o = 2; }\n")
+    # K34: a map whose value type is a wrapper: the class is generated as the schema says, and cannot be used
+    w("k34_map_wrapper_value", "map_wrapper_value",
+      'import "google/protobuf/wrappers.proto";\nmessage M { map<string, google.protobuf.Int32Value> mw = 1; }\n')
     # K17: a package segment that is a Python keyword
     w("k17_keyword_package", "keyword_package_segment", "message A { int32 x = 1; }\n", pkg="wk.lib",
       extra={"k17_user.proto": H + 'package wk.import.v1;\nimport "k17_keyword_package.proto";\nmessage U { wk.lib.A a = 1; }\n',
@@ -727,4 +730,8 @@ COQ_WITNESS_SOURCES = {
  "D_k8": _H + 'package wp;\nmessage A { int32 list = 1; string List = 2; }\n',
  "D_k2": _H + 'package wp;\nmessage lower { message inner { int32 x = 1; } inner i = 1; }\n',
  "D_k13": _H + 'package wp;\nmessage FooEntry { int32 x = 1; }\nmessage M { FooEntry foo = 1; map<string, int32> f_oo = 2; }\n',
+ # coq/Proofs/C03BridgeWit.v
+ "D_map_wrapper": _H + 'package wb;\nimport "google/protobuf/wrappers.proto";\nmessage M { map<string, google.protobuf.Int32Value> mw = 1; }\n',
+ "D_rep_wrapper": _H + 'package wb;\nimport "google/protobuf/wrappers.proto";\nmessage M { repeated google.protobuf.Int32Value rw = 1; }\n',
+ "D_any": _H + 'package wb;\nimport "google/protobuf/any.proto";\nmessage M { google.protobuf.Any a = 1; }\n',
 }
